@@ -4,7 +4,7 @@ from __future__ import annotations
 from sa.terms import C, CallT, P, Sub, SubC, show, show_fact
 from sa.walker import State
 
-from . import own_site, CHECKER, VSIG, call_events, flat, fn_site, loc, mentions
+from . import own_site, CHECKER, VSIG, checked_ok, call_events, flat, fn_site, loc, mentions
 
 EXPLANATION = (
     "Walk of verify_delegation (all paths). On every accepting path: R1 the trusted side passed the delegating-metadata "
@@ -41,7 +41,7 @@ def run(ctx, deps=True):
 
     for p in rets:
         st = State(facts=p.facts)
-        note("R1|trusted-checked", st.holds(("ok", CallT(CHECKER, [T]))), "every accepting path validated the trusted metadata with the delegating-metadata checker", "an accepting path did not validate the trusted metadata")
+        note("R1|trusted-checked", checked_ok(st, CHECKER, T), "every accepting path validated the trusted metadata with the delegating-metadata checker", "an accepting path did not validate the trusted metadata")
         note("R2|role-present", st.holds(("has", D, name)), "every accepting path established delegation_name in trusted.signed.delegations", "an accepting path did not establish that the named role is delegated (unknown role could fall through)")
         calls = call_events(p, VSIG)
         hit = [ev for ev in calls if len(ev[3]) >= 4 and ev[3][0] == U and ev[3][1] == K and ev[3][2] == th and ev[3][3] == gpg]
@@ -140,6 +140,17 @@ def _cause(eng, p, x, name, U, T, gpg, D, K, th):
             return "delegation_name is a str"
         if any(f[0] in ("notin", "nottype") and f[1] == gpg for f in facts):
             return "gpg is a boolean"
+        # spelled-out type preconditions that the validators / the envelope verifier enforce anyway,
+        # with the same class: an argument that is not a dictionary, a key list that is not a list,
+        # a threshold that is not an integer
+        if eng.prog.exc_is_sub(x.exc, "TypeError"):
+            for X, what in ((T, "trusted metadata"), (U, "untrusted metadata")):
+                if any(f[0] == "nottype" and f[1] in (X, SubC(X, "signed"), SubC(X, "signatures")) and "dict" in f[2] for f in facts):
+                    return "well-formedness of the %s (not a dictionary)" % what
+            if any(f[0] == "nottype" and f[1] == K and "list" in f[2] for f in facts):
+                return "the role's key list is a list (what the envelope verifier demands)"
+            if any(f[0] == "nottype" and f[1] == th and ("int" in f[2]) for f in facts):
+                return "the role's threshold is an integer (what the envelope verifier demands)"
         return None
     for ev in flat(p):
         if ev[0] == "call" and ev[5][0] == "raise" and (ev[1] == top or ev[1] in x.chain):
@@ -162,7 +173,7 @@ def _cause(eng, p, x, name, U, T, gpg, D, K, th):
         return "delegation_name is a str (implicit error on an invalid argument)"
     if not (st.holds(("type", gpg, frozenset(["bool"]))) or any(f[0] == "in" and f[1] == gpg for f in facts)) and on(gpg):
         return "gpg is a boolean (implicit error on an invalid argument)"
-    if not st.holds(("ok", CallT(CHECKER, [T]))) and on(T):
+    if not checked_ok(st, CHECKER, T) and on(T):
         return "well-formedness of the trusted metadata (implicit error)"
     if envelope(st, U) and on(U):
         return "untrusted metadata is a signed envelope (implicit error)"
